@@ -1,5 +1,5 @@
 """Common shape of the properties decided on Session traces (P1 model, P2 replay, P3 recorded executions)."""
-import framework, sessionprop, mcreplay
+import framework, sessionprop, mcreplay, gen
 from props.common import relevant
 
 ASSUME = ['the printer model (harness/printer.py) renders lines as libwayland 1.23.1 / pre-1.22 do',
@@ -21,6 +21,18 @@ def model_sessions(ctx, rep, cfg, what, sample, override=None, init=None, render
     renders = renders or [{'dialect': 'old'}, {'dialect': 'new'}]
     for k, s in enumerate(seqs):
         yield as_trace(s, init), dict(renders[k % len(renders)]), 'model:' + cfg
+
+
+def rich_sessions(ctx, salt, n, **kw):
+    """Sessions from one common, rich mix - all shipped interfaces, several connections, chatter, messages about objects the log
+    never saw being created, messages by which a client names itself (empty texts included), logs starting at 0.000 - so that
+    a kind of input added for one property is seen by the checks of all the others."""
+    for k in range(n):
+        opts = dict(nconn=(1, 3), nmsg=(15, 45), junk=0.1, cmds=0.0, core=None, unresolved=0.05, titles=0.12, zero_start=0.2,
+                    matcher_depth=k % 3)
+        opts.update(kw)
+        g = gen.SessionGen(ctx.seed * salt + 7 * k + 3, **opts)
+        yield g.session(), {'dialect': ctx.rnd.choice(['old', 'new']), 'mark': ctx.rnd.choice(['.', ','])}, 'rich'
 
 
 def run_property(ctx, prop, rule, p1_cfgs, session_iter, level='model_checking', classify=None):
